@@ -48,7 +48,7 @@ func c04Scenarios(cfg runCfg) []Scenario {
 	np := cfg.n(2400, 20)
 	hist := func() []Scenario {
 		var out []Scenario
-		for j := 0; j < cfg.n(320, 10); j++ {
+		for j := 0; j < cfg.n(640, 10); j++ {
 			if cfg.mine(j) {
 				out = append(out, Scenario{Family: "history", Seed: mix(cfg.seed, 4, 44, uint64(j))})
 			}
@@ -125,8 +125,21 @@ func c04Run(t *testing.T, sc Scenario, res *Result) {
 		self, _ := os.Executable()
 		target := pick(r, regexps)
 		var warm []string
-		for i, n := 0, r.between(2, 8); i < n; i++ {
+		for i, n := 0, r.between(1, 6); i < n; i++ {
 			warm = append(warm, pick(r, regexps))
+		}
+		if r.chance(1, 2) {
+			// related patterns: character classes that look alike to a cache (same text under other flags,
+			// long classes with a long common prefix, a class and its superset)
+			grp := pick(r, [][]string{
+				{`\p{Lu}+`, `[\p{Lu}\p{Lt}]{1,6}`, `\pL{1,3}`, `[\p{Lu}\p{Nd}]{2}`},
+				{`\p{Greek}{1,4}`, `[\p{Greek}\p{Cyrillic}]{1,4}`, `[\p{Greek}\p{Coptic}]+`},
+				{`(?i)[a-c]{1,4}`, `[A-Ca-c]{1,4}`, `(?i)[A-C]+`},
+				{`(?i)[k-m]{2}`, `[K-Mk-m]{2}`, `(?i)[K-M]`},
+				{`\w+`, `(?i)\w+`, `[0-9A-Z_a-z]{1,3}`},
+			})
+			target = pick(r, grp)
+			warm = append([]string{pick(r, grp)}, warm...)
 		}
 		run := func(w []string) string {
 			cmd := exec.Command(self, "-verif.child=c04hist")
